@@ -327,6 +327,7 @@ func FailedCall() {
 // against the reference interpreter of package gen
 func init() {
 	vrt.Register("C16_generated_functions", GeneratedFunctions)
+	vrt.Register("C16_returned_collections", ReturnedCollections)
 }
 
 func GeneratedFunctions() {
@@ -382,4 +383,42 @@ func GeneratedFunctions() {
 		prog = append(prog, gen.Let("g", gen.Var("f")), gen.Out(callAs("g", x))) // first class
 	}
 	gen.Check(prog, gen.NewData(2), "user function from the grammar")
+}
+
+// ---- a function that returns a collection yields that collection: an array of
+// 0, 1, 2 elements, a nested array, a hash - indexed, measured, iterated and
+// passed on like the same literal bound by let
+func ReturnedCollections() {
+	a, b := vrt.Int(), vrt.Int()
+	ctx := plush.NewContext()
+	ctx.Set("a", a)
+	ctx.Set("b", b)
+	lits := []string{"[]", "[a]", "[a, b]", "[[a, b]]", "[[a]]", "{\"k\": a}", "[a, b, a]"}
+	lit := lits[vrt.Choice(len(lits))]
+	uses := []string{
+		"<%= len(r) %>",
+		"<%= r[0] %>",
+		"<%= for (v) in r { %>(<%= v %>)<% } %>",
+		"<%= len(r[0]) %>",
+		"<%= r[0][0] %>",
+		"<%= r[\"k\"] %>",
+		"<% let g = fn(xs) { return len(xs) } %><%= g(r) %>",
+		"<%= if (r) { %>T<% } else { %>F<% } %>",
+	}
+	use := uses[vrt.Choice(len(uses))]
+	def := "<% let f = fn(p) { return " + lit + " } %><% let r = f(1) %>"
+	if vrt.Choice(2) == 1 {
+		// the return sits inside a block of the body
+		def = "<% let f = fn(p) { if (p == 1) { return " + lit + " } return 0 } %><% let r = f(1) %>"
+	}
+	in := def + "[" + use + "]"
+	ref := "<% let r = " + lit + " %>[" + use + "]"
+	vrt.Note("input", in)
+	got, err := plush.Render(in, ctx)
+	vrt.Note("got", got)
+	want, werr := plush.Render(ref, ctx)
+	vrt.Note("want", want)
+	vrt.Assert((err == nil) == (werr == nil), "a returned collection behaves like the literal: same verdict: "+lit)
+	vrt.Assert(got == want, "a returned collection behaves like the literal it was returned as: "+lit)
+	vrt.Cover("done")
 }
